@@ -28,7 +28,7 @@ ap.add_argument("--stds", default="c++14,c++17,c++20")
 args = ap.parse_args()
 os.makedirs(args.work, exist_ok=True)
 STDS = args.stds.split(",")
-CELLS = {k: catalogue.instances(k) for k in catalogue.KINDS}
+CELLS = {k: catalogue.instances(k, "c++14") for k in catalogue.KINDS}
 stats = dict(programs=0, nontrivial=0, multi_tu=0, header_twice=0, samples=[])
 failure = {}
 
